@@ -343,16 +343,10 @@ func nodeIsExit(info *types.Info, n ast.Node, entryObj types.Object) (isExit, de
 		if isExitCall(info, x.Call, entryObj) {
 			return true, true
 		}
-		// defer func() { ... entry.Exit() ... }()
+		// defer func() { ... entry.Exit() ... }(): counts only if the closure calls Exit on every one of its paths
+		// (a path that re-panics or returns before Exit leaks the entry)
 		if fl, ok := x.Call.Fun.(*ast.FuncLit); ok {
-			found := false
-			ast.Inspect(fl.Body, func(y ast.Node) bool {
-				if c, ok := y.(*ast.CallExpr); ok && isExitCall(info, c, entryObj) {
-					found = true
-				}
-				return !found
-			})
-			if found {
+			if closureExitsOnAllPaths(info, fl, entryObj) {
 				return true, true
 			}
 		}
@@ -910,4 +904,60 @@ func lastNodeOr(b *cfg.Block, def ast.Node) ast.Node {
 		return b.Nodes[len(b.Nodes)-1]
 	}
 	return def
+}
+
+// closureExitsOnAllPaths: every control-flow path through the function literal's body passes a call of
+// entry.Exit before the body ends (normally or by panicking).
+func closureExitsOnAllPaths(info *types.Info, fl *ast.FuncLit, entryObj types.Object) bool {
+	g := cfg.New(fl.Body, func(c *ast.CallExpr) bool { return !isPanicCall(info, c) })
+	if len(g.Blocks) == 0 {
+		return false
+	}
+	hasExit := func(n ast.Node) bool {
+		found := false
+		ast.Inspect(n, func(y ast.Node) bool {
+			if _, ok := y.(*ast.FuncLit); ok {
+				return false
+			}
+			if c, ok := y.(*ast.CallExpr); ok && isExitCall(info, c, entryObj) {
+				found = true
+			}
+			return !found
+		})
+		return found
+	}
+	any := false
+	for _, b := range g.Blocks {
+		for _, n := range b.Nodes {
+			if hasExit(n) {
+				any = true
+			}
+		}
+	}
+	if !any {
+		return false
+	}
+	ok := true
+	seen := map[*cfg.Block]bool{}
+	var walk func(b *cfg.Block)
+	walk = func(b *cfg.Block) {
+		if seen[b] || !ok {
+			return
+		}
+		seen[b] = true
+		for _, n := range b.Nodes {
+			if hasExit(n) {
+				return // this path is fine from here on
+			}
+		}
+		if len(b.Succs) == 0 {
+			ok = false
+			return
+		}
+		for _, s := range b.Succs {
+			walk(s)
+		}
+	}
+	walk(g.Blocks[0])
+	return ok
 }
